@@ -1,11 +1,14 @@
 #!/bin/bash
-# seedall.sh <cmds file> <results file> — verifies each seeded change in its scratch worktree, then runs the listed checks against it.
+# seedall.sh <cmds file> <results file> — verifies each seeded change in its scratch worktree (verifyseed.sh), then runs
+# the listed checks against it on the scratch worktree /tmp/wt (seedtest_wt.sh). Lines: "<pid> <X>|<demo command>|<checks>"
 CMDS=$1; OUT=$2
 while IFS='|' read -r px demo checks; do
   pid=${px% *}; x=${px#* }
+  case $x in A|B) sd=SEED;; *) sd=SEED2;; esac
   v=$(/verif/verifyseed.sh $pid $x "$demo" 2>&1 | grep -E "rc=|baseline|does not apply|^ok$" | tr '\n' ' ')
   echo "VERIFY $pid $x: $v" >> $OUT
   case "$v" in *"rc=0 ok baseline: 272/272 stable tests pass rc=1"*) ;; *) echo "  (verification NOT as expected, skipping checks)" >> $OUT; continue;; esac
-  (cd /verif && ./seedtest.sh /tmp/seed/$pid/SEED/$x.diff quick $checks) >> $OUT 2>&1
+  mkdir -p /tmp/seed/stage/$pid-$x && cp /tmp/seed/$pid/$sd/$x.diff /tmp/seed/stage/$pid-$x/patch.diff
+  (cd /verif && ./seedtest_wt.sh /tmp/seed/stage/$pid-$x/patch.diff quick $checks) >> $OUT 2>&1
 done < $CMDS
 echo DONE >> $OUT
